@@ -298,6 +298,13 @@ class Harness:
             return _AsyncCallable(fn) if is_async else _SyncCallable(fn)
         if kind == "unhashable-instance":
             return _AsyncUnhashable(fn) if is_async else _SyncUnhashable(fn)
+        if kind == "module-none":
+            # what bound methods of builtin objects look like (some_list.append, lock.release, ...):
+            # callable, with a __qualname__, and with __module__ None
+            c = _AsyncCallable(fn) if is_async else _SyncCallable(fn)
+            c.__module__ = None
+            c.__qualname__ = "list.append"
+            return c
         if kind == "lambda":
             # a plain callable that hands back whatever the payload function returns: for the
             # coroutine flavours that is a coroutine made by a function which is not itself async
